@@ -284,6 +284,7 @@ class Path:
         self.ret = UNK
         self.blocks = []     # (fn path, block) visited, outermost frame only
         self.heap = {}
+        self.memos = []      # one object-identity map per fork this path went through (original id -> its copy)
 
     def calls(self, *names):
         out = []
@@ -822,6 +823,7 @@ class Sim:
                                 memo = {}
                                 e2 = self._copy_env(env, memo)
                                 p2 = Path()
+                                p2.memos = path.memos + [memo]
                                 p2.events = list(path.events)
                                 p2.blocks = list(path.blocks)
                                 p2.heap = {k2: self._copy_val(v2, memo) for k2, v2 in path.heap.items()}
@@ -923,6 +925,7 @@ class Sim:
         memo = {}
         new_env = self._copy_env(env, memo)
         p2 = Path()
+        p2.memos = path.memos + [memo]
         p2.events = list(path.events)
         p2.blocks = list(path.blocks)
         p2.heap = {k: self._copy_val(v, memo) for k, v in path.heap.items()}
@@ -1060,49 +1063,73 @@ class Sim:
     def _inline(self, fn, env, bb, t, path, depth, callee_fn, args, cont):
         path.events.append(("enter", callee_fn.path, fn.path, bb))
         amap = {i + 1: a for i, a in enumerate(args)}
+        n0 = len(path.memos)
         sub = self._run_fn(callee_fn, amap, path, depth + 1)
         outs = []
         first = True
         for sp in sub:
+            e, own = self._caller_env(env, sp, n0)
             if sp.end == "return":
                 sp.events.append(("leave", callee_fn.path))
                 rv = sp.ret
                 sp.end = None
                 sp.ret = UNK
-                if first:
+                if own:
+                    # the callee forked with this frame's environment in reach: the path has its own copy of it
+                    outs.append(cont(rv, sp, e))
+                elif first:
                     outs.append(cont(rv, sp, env))
                     first = False
                 else:
                     memo = {}
                     e2 = self._copy_env(env, memo)
+                    sp.memos = sp.memos + [memo]
                     outs.append(cont(self._copy_val(rv, memo), sp, e2))
             else:
-                outs.append((env, sp, None))
+                outs.append((e, sp, None))
         return outs
+
+    @staticmethod
+    def _caller_env(env, sp, n0):
+        """The caller's environment as the sub-path sp sees it: forks inside the callee copy everything in reach,
+        which includes the caller's environment whenever the callee holds a reference into it."""
+        e = env
+        for memo in sp.memos[n0:]:
+            e = memo.get(id(e), e)
+        return e, e is not env
 
     def _inline_multi(self, fn, env, bb, t, path, depth, callee_fn, args, contm):
         """Like _inline, but the continuation returns a list of outs and receives a translation function for
         values captured before the call (forked paths work on a copy of the environment)."""
         path.events.append(("enter", callee_fn.path, fn.path, bb))
         amap = {i + 1: a for i, a in enumerate(args)}
+        n0 = len(path.memos)
         sub = self._run_fn(callee_fn, amap, path, depth + 1)
         outs = []
         first = True
         for sp in sub:
+            e, own = self._caller_env(env, sp, n0)
             if sp.end == "return":
                 sp.events.append(("leave", callee_fn.path))
                 rv = sp.ret
                 sp.end = None
                 sp.ret = UNK
-                if first:
+                if own:
+                    def tr(v, memos=sp.memos[n0:]):
+                        for m in memos:
+                            v = self._copy_val(v, m)
+                        return v
+                    outs.extend(contm(rv, sp, e, tr))
+                elif first:
                     outs.extend(contm(rv, sp, env, lambda v: v))
                     first = False
                 else:
                     memo = {}
                     e2 = self._copy_env(env, memo)
+                    sp.memos = sp.memos + [memo]
                     outs.extend(contm(self._copy_val(rv, memo), sp, e2, lambda v, memo=memo: self._copy_val(v, memo)))
             else:
-                outs.append((env, sp, None))
+                outs.append((e, sp, None))
         return outs
 
     def _find_map(self, fn, env, bb, t, path, depth, cont, it, f, next_fn, k):
@@ -1448,6 +1475,10 @@ class Sim:
                     return ("value", a.fields[0])
                 return ("panic", "unwrap on None")
             return ("value", UNK)
+        if p == "std::option::Option::<T>::ok_or" and len(d) == 2 and isinstance(d[0], Adt):
+            if d[0].variant == 1:
+                return ("value", Adt("std::result::Result", 0, [d[0].fields[0]]))
+            return ("value", Adt("std::result::Result", 1, [args[1]]))
         if p in ("std::option::Option::<T>::is_some", "std::option::Option::<T>::is_none"):
             a = d[0]
             if isinstance(a, Adt):
